@@ -153,4 +153,63 @@ theorem execOnce_allAtOnce_invokes {cfg : Cfg} {st : St} {now now1 : Tick} {exec
   simp only [execOnce, hlc, plan, List.mem_map, List.mem_filter]
   exact ⟨i, ⟨⟨hsel, by simp [hst, haw]⟩, by simp [hst, hpre]⟩, by simp [retriesOf, hst]⟩
 
+/-- (lemma form of `sub_records_covered`) -/
+theorem sub_records_covered' (cfg : Cfg) (P : Store) (now now1 : Tick) (exec : Id → Nat → Outcome)
+    (i : Id) (h : HS) (hst : (subPass cfg P now now1 exec).st i = some h) :
+    i ∈ (subPass cfg P now now1 exec).outcome.subrefs := by
+  have hst' := hst
+  rw [subPass_st_eq] at hst'
+  obtain ⟨h0, hp0, _, _⟩ := execOnce_st_some hst'
+  have hk := subSt0_known hp0
+  show i ∈ ((known cfg).eraseDups.filter (fun i => ((subPass cfg P now now1 exec).st i).isSome))
+  simp only [List.mem_filter]
+  exact ⟨List.mem_eraseDups.2 hk, by rw [hst]; rfl⟩
+
+/-! ### the composed pass `cycle2` -/
+
+theorem subWrites_other (cfg : Cfg) (sub : SubReg) (P : Store) (now : Tick) (execLeaf : Id → Nat → Outcome)
+    (i : Id) : ∀ (parents : List Id) (base : Store), (∀ p ∈ parents, i ∉ sub.children p) →
+    subWrites cfg sub P now execLeaf parents base i = base i := by
+  intro parents
+  induction parents with
+  | nil => intro base _; rfl
+  | cons p ps ih =>
+    intro base h
+    unfold subWrites
+    simp only [List.foldl_cons]
+    have hp : i ∉ sub.children p := h p (by simp)
+    have := ih (if (sub.children p).isEmpty then base
+                else fun i => if i ∈ sub.children p
+                  then (store base (subPass (subCfgOf cfg sub p) P now now execLeaf).st) i else base i)
+              (fun q hq => h q (by simp [hq]))
+    unfold subWrites at this
+    rw [this]
+    by_cases he : (sub.children p).isEmpty = true
+    · simp [he]
+    · simp [he, hp]
+
+/-- `cycle2`, unfolded over the names used for `cycle` -/
+theorem cycle2_eq (cfg : Cfg) (sub : SubReg) (P : Store) (now : Tick) (execLeaf : Id → Nat → Outcome) :
+    cycle2 cfg sub P now execLeaf =
+      let ex := execTop cfg sub P now execLeaf
+      let r := execOnce cfg (preState cfg P now) now now ex
+      let P2 := store (subWrites cfg sub P now execLeaf (r.invoked.map (·.1)) (midStore cfg P now)) r.st
+      { invoked := r.invoked,
+        subInvoked := (r.invoked.map (·.1)).flatMap (fun p =>
+          if (sub.children p).isEmpty then [] else (subPass (subCfgOf cfg sub p) P now now execLeaf).invoked),
+        P' := if done r.st (known cfg) then purge P2 r.st cfg.owned (known cfg) else P2,
+        closed := done r.st (known cfg) } := by
+  unfold cycle2 midStore extrasLeft preState
+  rfl
+
+/-- every registered child has a state in its parent's sub-pass, hence is among the outcome's subrefs -/
+theorem child_in_subrefs (cfg : Cfg) (sub : SubReg) (P : Store) (now : Tick) (execLeaf : Id → Nat → Outcome)
+    (p i : Id) (hi : i ∈ sub.children p) :
+    i ∈ (subPass (subCfgOf cfg sub p) P now now execLeaf).outcome.subrefs := by
+  have hsel : i ∈ (subCfgOf cfg sub p).selected := hi
+  have hown : i ∈ (subCfgOf cfg sub p).owned := hi
+  obtain ⟨h0, hp0, _, _⟩ := subSt0_selected (P := P) (now := now) hsel hown
+  obtain ⟨h1, hp1, _⟩ := execOnce_st_of (cfg := subCfgOf cfg sub p) (now := now) (now1 := now) (exec := execLeaf) hp0
+  exact sub_records_covered' (subCfgOf cfg sub p) P now now execLeaf i h1 (by rw [subPass_st_eq]; exact hp1)
+
 end Kopf.C02
